@@ -16,7 +16,11 @@ func goMatchRegex(ref, pattern, del string) string {
 		rx += "$"
 	}
 	rx = strings.ReplaceAll(rx, `\*`, ".*")
-	rx = strings.ReplaceAll(rx, "%", fmt.Sprintf("[^%v]*", regexp.QuoteMeta(del)))
+	if del == "" { // flat namespace (notes/C14-fix-7)
+		rx = strings.ReplaceAll(rx, "%", ".*")
+	} else {
+		rx = strings.ReplaceAll(rx, "%", fmt.Sprintf("[^%v]*", regexp.QuoteMeta(del)))
+	}
 	return rx
 }
 
@@ -91,7 +95,7 @@ func rstar(any bool, anch bool, d byte, rest []rtok, s string, steps *int) int {
 
 func modelMatch(ref, pattern, del, name string) (string, bool) {
 	steps := 0
-	k := rmatch(!strings.HasSuffix(pattern, "%"), del[0], compilePattern(canonFirst(del, ref+pattern)), name, &steps)
+	k := rmatch(!strings.HasSuffix(pattern, "%"), delimByte(del), compilePattern(canonFirst(del, ref+pattern)), name, &steps)
 	if k < 0 {
 		return "", false
 	}
